@@ -678,6 +678,20 @@ SPECS += [
     ("C06", "remover-key-is-a-pair", "rope/refactor/change_signature.py",
      replace_expr_where("ArgumentRemover.change_argument_mapping", _is("definition_info.args_with_defaults[self.index][0]"), _expr("definition_info.args_with_defaults[0]")), ["R06.13"]),
 ]
+SPECS += [
+    ("C16", "declared-codec-name-used-as-written", "rope/base/fscommands.py",
+     replace_expr_where("_find_coding", _is("_normal_coding_name(result)"), _expr("result")), ["R16.13"]),
+    ("C16", "utf-8-sig-kept", "rope/base/fscommands.py",
+     replace_expr_where("_normal_coding_name", _is("enc == 'utf-8' or enc.startswith('utf-8-')"), _expr("enc == 'utf-8'")), ["R16.13"]),
+    ("C12", "newline-convention-not-saved", "rope/base/change.py",
+     replace_expr_where("ChangeToData.convertChangeContents", lambda n: isinstance(n, ast.Tuple) and len(n.elts) == 4, lambda n: ast.Tuple(elts=n.elts[:3], ctx=ast.Load())), ["R12.15"]),
+]
+SPECS += [
+    ("C19", "matches-in-traversal-order", "rope/refactor/restructure.py",
+     replace_expr_where("_ChangeComputer.get_changed", lambda n: isinstance(n, ast.Call) and isinstance(n.func, ast.Name) and n.func.id == "sorted", _expr("self.matches")), ["R19.14"]),
+    ("C16", "newline-convention-captured-unread", "rope/base/change.py",
+     replace_expr_where("ChangeContents.do", _is("self.resource.newlines is None and self.resource.exists()"), _expr("False")), ["R16.14"]),
+]
 SPECS = [s for s in SPECS if s[3] is not None]  # (entries without an AST edit are covered by their kept seed)
 
 SPECS = [s for s in SPECS if s[1] != "tab-to-four-spaces"]
